@@ -67,25 +67,36 @@ var evalFunctions = map[string]govaluate.ExpressionFunction{
 	// Square root.
 	"sqrt": scalarFunction("sqrt", func(x float64) (float64, error) { return math.Sqrt(x), nil }),
 
-	// Count of array.
+	// Count of array. Like the other aggregates, nil values (e.g. the
+	// result of first() on an empty array) are not counted.
 	"count": func(args ...interface{}) (interface{}, error) {
-		return float64(len(args)), nil
+		count := 0
+		for _, v := range args {
+			if v != nil {
+				count++
+			}
+		}
+		return float64(count), nil
 	},
 
-	// Last element in array. nil if array is empty.
+	// Last non-nil element in array. nil if there is none.
 	"last": func(args ...interface{}) (interface{}, error) {
-		if len(args) == 0 {
-			return nil, nil
+		for i := len(args) - 1; i >= 0; i-- {
+			if args[i] != nil {
+				return args[i], nil
+			}
 		}
-		return args[len(args)-1], nil
+		return nil, nil
 	},
 
-	// First element in array. nil if array is empty.
+	// First non-nil element in array. nil if there is none.
 	"first": func(args ...interface{}) (interface{}, error) {
-		if len(args) == 0 {
-			return nil, nil
+		for _, v := range args {
+			if v != nil {
+				return v, nil
+			}
 		}
-		return args[0], nil
+		return nil, nil
 	},
 
 	// Sorted array.
